@@ -58,9 +58,22 @@ def lazy_iterate_dicts(dict_of_iterables):
 
 
 def generate_combinations(generators_dict):
-    """Yield all combinations of generator values as keyword arguments"""
-    for combination in itertools.product(*generators_dict.values()):
-        yield dict(zip(generators_dict.keys(), combination))
+    """
+    Yield all combinations of generator values as keyword arguments, in the order of itertools.product, but consuming
+    the first generator lazily (itertools.product would exhaust every generator before yielding anything, which pulls
+    a lazily supplied domain completely before the first result).
+    """
+    keys = list(generators_dict.keys())
+    if not keys:
+        yield {}
+        return
+    first, *rest = generators_dict.values()
+    rest_values = None
+    for first_value in first:
+        if rest_values is None:
+            rest_values = [list(r) for r in rest]
+        for combination in itertools.product(*rest_values):
+            yield dict(zip(keys, (first_value,) + combination))
 
 
 def filter_data(data, selected_indices):
